@@ -324,6 +324,7 @@ namespace ip {
 				, boost::system::error_code(error::operation_aborted))));
 			m_connect_handler = nullptr;
 		}
+		m_connect_timer.cancel();
 	}
 
 	void tcp::socket::cancel()
@@ -400,8 +401,16 @@ namespace ip {
 		{
 			m_channel.reset();
 			// TODO: ask the policy object what the round-trip to this endpoint is
+			// the connect stays pending (and can be cancelled) until the
+			// refusal has made its way back
+			m_connect_handler = std::move(h);
 			m_connect_timer.expires_after(chrono::milliseconds(50));
-			m_connect_timer.async_wait(aux::make_malloc(std::bind(std::move(h), ec)));
+			m_connect_timer.async_wait([this, ec](boost::system::error_code const& e)
+			{
+				if (e || !m_connect_handler) return;
+				post(m_io_service, aux::make_malloc(std::bind(std::move(m_connect_handler), ec)));
+				m_connect_handler = nullptr;
+			});
 			return;
 		}
 
